@@ -27,6 +27,16 @@ add("C07", "model_checking",
     "(cross-checked against uncached runs each run).",
     "explicit-state exploration of the day-indexed state machine with per-state conformance to a reference model", "2/C07")
 
+add("C18", "model_checking",
+    "Exhaustive over every piecewise_* schedule, every date at which its resolved definition changes and every piece: the arrays in the "
+    "environment are compared with an exact Fractions reference built from the YAML text, the real piecewise_polynomial / tariff / surcharge "
+    "rules are evaluated at every threshold, +-1 ulp, +-0.01, interior quantiles and a euro lattice and compared with the exact value; "
+    "well-formedness (strictly increasing thresholds covering the real line), continuity, monotonicity, convexity, top-rate and the "
+    "surcharge cap are decided per interval from the coefficients (degree <= 2, so interval ends decide the whole interval).",
+    "Trusted: mc/ref/params.py Schedule (exact arithmetic). 'All real arguments' is covered per interval by coefficient obligations plus "
+    "point evaluation, not by enumeration of reals.",
+    "exhaustive enumeration of schedule versions x pieces x critical points against an exact reference; per-interval coefficient checks", "2/C18")
+
 NOT_APPLICABLE = []
 
 
